@@ -72,69 +72,58 @@ Theorem C07_sensor_pos_kernel_eq_model :
 Proof. exact @sensor_pos_kernel_eq_model. Qed.
 Print Assumptions C07_sensor_pos_kernel_eq_model.
 
-(* the limit kernels: a task writes nothing, or the row's value through the same cutoff function at the
-   sensor's address; and it writes only for a row inside the limit block with efc_id = objid and
-   efc_type in (LIMIT_JOINT, LIMIT_TENDON).  (These forms also hold for kernels that additionally test
-   the sensor type, i.e. they survive the repair of the finding below.) *)
-Theorem C07_limit_pos_kernel_shape :
+(* the limit kernels (repaired in /repo 5c62633): one task writes exactly the selected row -- inside the limit
+   block of the world, efc_id = the sensor's object, and LIMIT_JOINT (3) for the joint-limit sensor type /
+   LIMIT_TENDON (4) for the tendon-limit sensor type -- through the same cutoff function; and that selection
+   is MuJoCo's: a joint-limit sensor reads only mjCNSTR_LIMIT_JOINT rows whose id is its joint, a tendon-limit
+   sensor only mjCNSTR_LIMIT_TENDON rows whose id is its tendon (mj_limit_row_matches, Model/Sensor.v) *)
+Theorem C07_limit_pos_kernel_spec :
   forall (S : Type) (H : Scalar S) w efcid lid sensor_type sensor_datatype sensor_objid sensor_adr sensor_cutoff sensor_limit_adr ne_in nf_in nl_in efc_type_in efc_id_in efc_pos_in efc_margin_in sensordata_out orc,
-    let ws := k__limit_pos w efcid lid sensor_type sensor_datatype sensor_objid sensor_adr sensor_cutoff sensor_limit_adr ne_in nf_in nl_in efc_type_in efc_id_in efc_pos_in efc_margin_in sensordata_out orc in
-    ws = [] \/ ws = limit_write w lid sensor_type sensor_datatype sensor_adr sensor_cutoff sensor_limit_adr (ssub (efc_pos_in w efcid) (efc_margin_in w efcid)).
-Proof. exact @limit_pos_kernel_shape. Qed.
-Print Assumptions C07_limit_pos_kernel_shape.
-Theorem C07_limit_pos_writes_only_selected_row :
+    k__limit_pos w efcid lid sensor_type sensor_datatype sensor_objid sensor_adr sensor_cutoff sensor_limit_adr ne_in nf_in nl_in efc_type_in efc_id_in efc_pos_in efc_margin_in sensordata_out orc
+    = if limit_row_selected w efcid lid sensor_type sensor_objid sensor_limit_adr ne_in nf_in nl_in efc_type_in efc_id_in 20 23 then limit_write w lid sensor_type sensor_datatype sensor_adr sensor_cutoff sensor_limit_adr (ssub (efc_pos_in w efcid) (efc_margin_in w efcid)) else [].
+Proof. exact @limit_pos_kernel_spec. Qed.
+Print Assumptions C07_limit_pos_kernel_spec.
+Theorem C07_limit_pos_reads_only_matching_row :
   forall (S : Type) (H : Scalar S) w efcid lid sensor_type sensor_datatype sensor_objid sensor_adr sensor_cutoff sensor_limit_adr ne_in nf_in nl_in efc_type_in efc_id_in efc_pos_in efc_margin_in sensordata_out orc,
-    k__limit_pos w efcid lid sensor_type sensor_datatype sensor_objid sensor_adr sensor_cutoff sensor_limit_adr ne_in nf_in nl_in efc_type_in efc_id_in efc_pos_in efc_margin_in sensordata_out orc <> [] -> limit_row_selected w efcid lid sensor_objid sensor_limit_adr ne_in nf_in nl_in efc_type_in efc_id_in = true.
-Proof. exact @limit_pos_writes_only_selected_row. Qed.
-Print Assumptions C07_limit_pos_writes_only_selected_row.
-Theorem C07_limit_vel_kernel_shape :
+    k__limit_pos w efcid lid sensor_type sensor_datatype sensor_objid sensor_adr sensor_cutoff sensor_limit_adr ne_in nf_in nl_in efc_type_in efc_id_in efc_pos_in efc_margin_in sensordata_out orc <> [] ->
+    let sid := sensor_limit_adr lid in
+    mj_limit_row_matches (sensor_type sid) (efc_type_in w efcid) (efc_id_in w efcid) (sensor_objid sid) = true.
+Proof. exact @limit_pos_reads_only_matching_row. Qed.
+Print Assumptions C07_limit_pos_reads_only_matching_row.
+Theorem C07_limit_vel_kernel_spec :
   forall (S : Type) (H : Scalar S) w efcid lid sensor_type sensor_datatype sensor_objid sensor_adr sensor_cutoff sensor_limit_adr ne_in nf_in nl_in efc_type_in efc_id_in efc_vel_in sensordata_out orc,
-    let ws := k__limit_vel w efcid lid sensor_type sensor_datatype sensor_objid sensor_adr sensor_cutoff sensor_limit_adr ne_in nf_in nl_in efc_type_in efc_id_in efc_vel_in sensordata_out orc in
-    ws = [] \/ ws = limit_write w lid sensor_type sensor_datatype sensor_adr sensor_cutoff sensor_limit_adr (efc_vel_in w efcid).
-Proof. exact @limit_vel_kernel_shape. Qed.
-Print Assumptions C07_limit_vel_kernel_shape.
-Theorem C07_limit_vel_writes_only_selected_row :
+    k__limit_vel w efcid lid sensor_type sensor_datatype sensor_objid sensor_adr sensor_cutoff sensor_limit_adr ne_in nf_in nl_in efc_type_in efc_id_in efc_vel_in sensordata_out orc
+    = if limit_row_selected w efcid lid sensor_type sensor_objid sensor_limit_adr ne_in nf_in nl_in efc_type_in efc_id_in 21 24 then limit_write w lid sensor_type sensor_datatype sensor_adr sensor_cutoff sensor_limit_adr (efc_vel_in w efcid) else [].
+Proof. exact @limit_vel_kernel_spec. Qed.
+Print Assumptions C07_limit_vel_kernel_spec.
+Theorem C07_limit_vel_reads_only_matching_row :
   forall (S : Type) (H : Scalar S) w efcid lid sensor_type sensor_datatype sensor_objid sensor_adr sensor_cutoff sensor_limit_adr ne_in nf_in nl_in efc_type_in efc_id_in efc_vel_in sensordata_out orc,
-    k__limit_vel w efcid lid sensor_type sensor_datatype sensor_objid sensor_adr sensor_cutoff sensor_limit_adr ne_in nf_in nl_in efc_type_in efc_id_in efc_vel_in sensordata_out orc <> [] -> limit_row_selected w efcid lid sensor_objid sensor_limit_adr ne_in nf_in nl_in efc_type_in efc_id_in = true.
-Proof. exact @limit_vel_writes_only_selected_row. Qed.
-Print Assumptions C07_limit_vel_writes_only_selected_row.
-Theorem C07_limit_frc_kernel_shape :
+    k__limit_vel w efcid lid sensor_type sensor_datatype sensor_objid sensor_adr sensor_cutoff sensor_limit_adr ne_in nf_in nl_in efc_type_in efc_id_in efc_vel_in sensordata_out orc <> [] ->
+    let sid := sensor_limit_adr lid in
+    mj_limit_row_matches (sensor_type sid) (efc_type_in w efcid) (efc_id_in w efcid) (sensor_objid sid) = true.
+Proof. exact @limit_vel_reads_only_matching_row. Qed.
+Print Assumptions C07_limit_vel_reads_only_matching_row.
+Theorem C07_limit_frc_kernel_spec :
   forall (S : Type) (H : Scalar S) w efcid lid sensor_type sensor_datatype sensor_objid sensor_adr sensor_cutoff sensor_limit_adr ne_in nf_in nl_in efc_type_in efc_id_in efc_force_in sensordata_out orc,
-    let ws := k__limit_frc w efcid lid sensor_type sensor_datatype sensor_objid sensor_adr sensor_cutoff sensor_limit_adr ne_in nf_in nl_in efc_type_in efc_id_in efc_force_in sensordata_out orc in
-    ws = [] \/ ws = limit_write w lid sensor_type sensor_datatype sensor_adr sensor_cutoff sensor_limit_adr (efc_force_in w efcid).
-Proof. exact @limit_frc_kernel_shape. Qed.
-Print Assumptions C07_limit_frc_kernel_shape.
-Theorem C07_limit_frc_writes_only_selected_row :
+    k__limit_frc w efcid lid sensor_type sensor_datatype sensor_objid sensor_adr sensor_cutoff sensor_limit_adr ne_in nf_in nl_in efc_type_in efc_id_in efc_force_in sensordata_out orc
+    = if limit_row_selected w efcid lid sensor_type sensor_objid sensor_limit_adr ne_in nf_in nl_in efc_type_in efc_id_in 22 25 then limit_write w lid sensor_type sensor_datatype sensor_adr sensor_cutoff sensor_limit_adr (efc_force_in w efcid) else [].
+Proof. exact @limit_frc_kernel_spec. Qed.
+Print Assumptions C07_limit_frc_kernel_spec.
+Theorem C07_limit_frc_reads_only_matching_row :
   forall (S : Type) (H : Scalar S) w efcid lid sensor_type sensor_datatype sensor_objid sensor_adr sensor_cutoff sensor_limit_adr ne_in nf_in nl_in efc_type_in efc_id_in efc_force_in sensordata_out orc,
-    k__limit_frc w efcid lid sensor_type sensor_datatype sensor_objid sensor_adr sensor_cutoff sensor_limit_adr ne_in nf_in nl_in efc_type_in efc_id_in efc_force_in sensordata_out orc <> [] -> limit_row_selected w efcid lid sensor_objid sensor_limit_adr ne_in nf_in nl_in efc_type_in efc_id_in = true.
-Proof. exact @limit_frc_writes_only_selected_row. Qed.
-Print Assumptions C07_limit_frc_writes_only_selected_row.
+    k__limit_frc w efcid lid sensor_type sensor_datatype sensor_objid sensor_adr sensor_cutoff sensor_limit_adr ne_in nf_in nl_in efc_type_in efc_id_in efc_force_in sensordata_out orc <> [] ->
+    let sid := sensor_limit_adr lid in
+    mj_limit_row_matches (sensor_type sid) (efc_type_in w efcid) (efc_id_in w efcid) (sensor_objid sid) = true.
+Proof. exact @limit_frc_reads_only_matching_row. Qed.
+Print Assumptions C07_limit_frc_reads_only_matching_row.
 
-(* ---- BEGIN: holds only while the row selection ignores the sensor type (finding
-        C07:LIMITSENSOR:joint-tendon-id-collision); delete together with the block of the same name in
-        Proof/Sensor.v when /repo is fixed ---- *)
-(* every selected row is written, whatever the sensor type ... *)
-Theorem C07_limit_pos_writes_every_selected_row :
+(* the former defect (finding C07:LIMITSENSOR:joint-tendon-id-collision, fixed) is excluded *)
+Theorem C07_jointlimitpos_ignores_tendon_rows :
   forall (S : Type) (H : Scalar S) w efcid lid sensor_type sensor_datatype sensor_objid sensor_adr sensor_cutoff sensor_limit_adr ne_in nf_in nl_in efc_type_in efc_id_in efc_pos_in efc_margin_in sensordata_out orc,
-    limit_row_selected w efcid lid sensor_objid sensor_limit_adr ne_in nf_in nl_in efc_type_in efc_id_in = true ->
-    k__limit_pos w efcid lid sensor_type sensor_datatype sensor_objid sensor_adr sensor_cutoff sensor_limit_adr ne_in nf_in nl_in efc_type_in efc_id_in efc_pos_in efc_margin_in sensordata_out orc = limit_write w lid sensor_type sensor_datatype sensor_adr sensor_cutoff sensor_limit_adr (ssub (efc_pos_in w efcid) (efc_margin_in w efcid)).
-Proof. exact @limit_pos_writes_every_selected_row. Qed.
-Print Assumptions C07_limit_pos_writes_every_selected_row.
-
-(* ... REFUTED: that row selection is not MuJoCo's.  A JOINTLIMITPOS sensor (type 20) of joint 0 picks up
-   the limit row of TENDON 0 (efc_type 4, efc_id 0): the kernel never looks at the sensor type.
-   Replayed on the real code by bin/props/C07.py (finding C07:JOINTLIMITPOS:tendon-limit-row-id-collision).
-   DELETE this theorem (and limit_sensor_matches_mujoco_refuted in Proof/Sensor.v) once /repo is fixed. *)
-Theorem C07_limit_sensor_matches_mujoco_refuted :
-  forall (S : Type) (H : Scalar S),
-  exists (stype efc_type efc_id objid : Z),
-    mj_limit_row_matches stype efc_type efc_id objid = false /\
-    k__limit_pos (S:=S) 0 0 0 (fun _ => stype) (fun _ => 0) (fun _ => objid) (fun _ => 0) (fun _ => s0) (fun _ => 0)
-      (fun _ => 0) (fun _ => 0) (fun _ => 1) (fun _ _ => efc_type) (fun _ _ => efc_id) (fun _ _ => s1) (fun _ _ => s0)
-      (fun _ _ => s0) (fun _ => 0) <> [].
-Proof. exact @limit_sensor_matches_mujoco_refuted. Qed.
-Print Assumptions C07_limit_sensor_matches_mujoco_refuted.
-(* ---- END ---- *)
+    sensor_type (sensor_limit_adr lid) = 20 -> efc_type_in w efcid = 4 ->
+    k__limit_pos w efcid lid sensor_type sensor_datatype sensor_objid sensor_adr sensor_cutoff sensor_limit_adr ne_in nf_in nl_in efc_type_in efc_id_in efc_pos_in efc_margin_in sensordata_out orc = [].
+Proof. exact @jointlimitpos_ignores_tendon_rows. Qed.
+Print Assumptions C07_jointlimitpos_ignores_tendon_rows.
 
 Theorem C07_tendon_actuator_force_cutoff_spec :
   forall (S : Type) (H : Scalar S) w k sensor_type sensor_datatype sensor_adr sensor_cutoff sensor_tendonactfrc_adr sensordata_in sensordata_out orc,
